@@ -230,8 +230,23 @@ class SConfig(Sym):
 
     def sym_getattr(self, ex, name):
         if name == "get":
-            return NativeStub(lambda k, default=None: default, "config.get")
+            def get(k, default=None):
+                # the configuration may hold any key (a hand-edited or migrated file, ~/.signacrc): present -> some value of the file's
+                if k != "schema_version" and ex.decide(None, f"pre:the configuration holds a value for {k!r}"):
+                    return SCfgValue(k)
+                return default
+            return NativeStub(get, "config.get")
         raise Unsupported(f"config.{name}")
+
+
+class SCfgValue(Sym):
+    """a value read from the configuration under some key other than schema_version"""
+
+    def __init__(self, key):
+        self.key = key
+
+    def __repr__(self):
+        return f"<configured {self.key}>"
 
 
 class SVer(Sym):
